@@ -38,7 +38,7 @@ CR2 = [[3.0, 0, 1, 2], [0, 2, 2, 2], [1, 5, 0, 1], [2, 2, 3, 0], [4, 1, 1, 1]]
 AX1 = [[0.0, 1], [1, 0], [1, 1], [0, 0], [2, 1], [1, 2], [2, 2]]
 AX2 = [[1.0, 1], [0, 2], [2, 0], [1, 0], [0, 1], [2, 2], [0, 0]]
 
-CONFIGS = ["TO_dp", "TO_eo", "EG_dp", "EG_eo_nu", "GS_dp", "GS_bgl", "CR_1", "CR_2", "CR_df", "ADV_clf", "ADV_reg"]
+CONFIGS = ["TO_dp", "TO_eo", "EG_dp", "EG_eo_nu", "EG_bgl", "GS_dp", "GS_bgl", "CR_1", "CR_2", "CR_df", "ADV_clf", "ADV_reg"]
 
 
 def bounds(tier, seed):
@@ -75,6 +75,9 @@ def make(cfg):
         return red.ExponentiatedGradient(ExactLearner(), red.DemographicParity(difference_bound=0.1), eps=0.05, max_iter=8)
     if cfg == "EG_eo_nu":
         return red.ExponentiatedGradient(ExactLearner(), red.EqualizedOdds(difference_bound=0.1), eps=0.3, max_iter=6, nu=0.01, eta0=1.5)
+    if cfg == "EG_bgl":  # regression moment: predict draws one stored predictor per row
+        from mc.stubs import MeanRegressor
+        return red.ExponentiatedGradient(MeanRegressor(), red.BoundedGroupLoss(red.SquareLoss(0, 1), upper_bound=0.05), eps=0.2, max_iter=10, run_linprog_step=False)
     if cfg == "GS_dp":
         return red.GridSearch(ExactLearner(), red.DemographicParity(), grid_size=5)
     if cfg == "GS_bgl":
@@ -114,6 +117,8 @@ def do_fit(cfg, est, which):
     y = np.array(Y1 if which == 1 else Y2)
     if cfg == "GS_bgl":
         y = 0.25 + 0.5 * y
+    if cfg == "EG_bgl":
+        y = np.array([0.0, 0.5, 1.0, 0.5, 0.0, 1.0, 0.5, 0.0] if which == 1 else [1.0, 0.0, 0.5, 0.5, 1.0, 0.0, 0.0, 0.5])
     A = np.array(A1 if which == 1 else A2)
     return est.fit(X, y, sensitive_features=A)
 
@@ -124,6 +129,10 @@ def predict_fp(cfg, est, seed=7):
         pm = np.asarray(est._pmf_predict(np.array(PX), sensitive_features=np.array(PA)), float)
         pr = np.asarray(est.predict(np.array(PX), sensitive_features=np.array(PA), random_state=seed))
         return [np.round(pm, 9).tolist(), pr.tolist()]
+    if cfg == "EG_bgl":
+        pm = np.asarray(est._pmf_predict(np.array(PX)), float)
+        prs = [np.round(np.asarray(est.predict(np.array(PX), random_state=sd), float), 9).tolist() for sd in (seed, seed + 1, seed + 2)]
+        return [np.round(pm, 9).tolist(), prs]
     if cfg.startswith("EG"):
         pm = np.asarray(est._pmf_predict(np.array(PX)), float)
         pr = np.asarray(est.predict(np.array(PX), random_state=seed))
